@@ -186,9 +186,6 @@ struct FamVarOpt : NoTrimReset {
 };
 
 struct FamVarOptUnion : NoTrimReset {
-  // var_opt_union::operator=(const var_opt_union&) does not compile (std::swap(allocator_, other.allocator_) with a
-  // const `other`): see proposed_fixes/C19-var-opt-union-copy-assign.md
-  template<class S_> static void cassign(S_&, const S_&) { throw BadOp("unsupported"); }
   using A = TrackAlloc<Item>;
   using S = datasketches::var_opt_union<Item, A>;
   static S make(int inst, const W& w) { return S((uint32_t)num(w, 3, 8), A(inst)); }
